@@ -50,6 +50,7 @@ type genLine struct {
 	Nw     int             `json:"nw"`
 	Pl     string          `json:"pl"`
 	Styles []string        `json:"styles"`
+	E      string          `json:"e"`
 	Nt     int             `json:"nt"`
 	Steps  []bidiStep      `json:"steps"`
 }
@@ -119,11 +120,14 @@ func expand(env *fw.Env, src string, raw json.RawMessage) []json.RawMessage {
 			return nil
 		}
 		for _, ch := range []string{"all", "one"} {
-			out = append(out, fw.MustJSON(decBeh{Kind: "dec", C: c, Chunk: ch, Salt: salt}))
+			out = append(out, fw.MustJSON(decBeh{Kind: "dec", C: c, Chunk: ch, Salt: salt, E: g.E}))
 		}
 	case "rt":
-		for _, ch := range []string{"all", "one"} {
-			out = append(out, fw.MustJSON(decBeh{Kind: "rt", Len: g.Len, Ty: g.Ty, Chunk: ch, Salt: salt}))
+		// an encoded frame must decode to itself through every entry point that returns frames
+		for _, e := range []string{"rfr", "sessrfr", "tcp", "sess"} {
+			for _, ch := range []string{"all", "one"} {
+				out = append(out, fw.MustJSON(decBeh{Kind: "rt", Len: g.Len, Ty: g.Ty, Chunk: ch, Salt: salt, E: e}))
+			}
 		}
 	case "listener":
 		var l struct {
@@ -441,6 +445,20 @@ var showResult chan error
 // clauses it breaks (CrossFrameForward_show_*.cfg) - the model really contains the mechanism, the invariants are
 // not vacuous. Quick tier: the seeded deviation and one clause per neighbour; thorough: every clause.
 func showDeviations(env *fw.Env) error {
+	// the decoder's entry points (spec/CrossFrame.tla): with the length check on the reader path only, the bound no
+	// longer holds for every entry point
+	for _, inv := range []string{"DecoderBounded", "EntriesAgree"} {
+		r, err := fw.RunTLC(fw.TLCJob{Name: "show:limitpath:" + inv, Module: "CrossFrame", Cfg: "CrossFrame_show_limitpath.cfg", Workers: 1, Consts: map[string]string{"INV": inv}})
+		if err != nil {
+			return err
+		}
+		if r.OK || !(strings.Contains(r.Violation, inv) || strings.Contains(r.Out, "invariant of "+inv+" is equal to FALSE")) {
+			return fmt.Errorf("deviation cfg CrossFrame_show_limitpath.cfg no longer exhibits %s violated (ok=%v violation=%q)", inv, r.OK, r.Violation)
+		}
+		if env.Tier != "thorough" {
+			break
+		}
+	}
 	type show struct{ cfg, inv string }
 	shows := []show{{"shared", "Unchanged"}, {"shared", "BufferOwned"}, {"firstdone", "PoolSound"}, {"earlyput", "Unchanged"}, {"global", "Unchanged"}}
 	if env.Tier == "thorough" {
